@@ -304,7 +304,11 @@ func (n *Net) roundTrip(req *http.Request) (*http.Response, error) {
 	sreq := req.Clone(req.Context())
 	sreq.RequestURI = req.URL.RequestURI()
 	sreq.RemoteAddr = "client:1"
-	if req.Body != nil {
+	if req.Body != nil && req.Header.Get("X-Verif-Stream-Body") != "" {
+		// the harness wants the server to read the body as a stream (it fails part-way)
+		sreq.Header.Del("X-Verif-Stream-Body")
+		sreq.Body = req.Body
+	} else if req.Body != nil {
 		body, err := io.ReadAll(req.Body)
 		req.Body.Close()
 		if err != nil {
